@@ -1249,6 +1249,142 @@ func scEvalThrow(r *h.Rng) *prog {
 	return p
 }
 
+// hoisting where a function's own name, its parameters, its vars and its inner function declarations collide
+// (10.5: parameters, then function declarations, then `arguments`, then vars that do not exist yet; the name of a
+// function DECLARATION is not bound inside it, that of a named function EXPRESSION is, immutably, one level out)
+func scHoistCollide(r *h.Rng) *prog {
+	p := &prog{}
+	p.v("h", "r1")
+	pool := []string{"f", "a", "g", "arguments"}
+	sub := func() []string {
+		var out []string
+		for _, x := range pool {
+			if r.Chance(45) {
+				out = append(out, x)
+			}
+		}
+		return out
+	}
+	params, vars, inner := sub(), sub(), sub()
+	for i, x := range params { // a parameter named `arguments` is legal; keep at most one `f`
+		_ = i
+		_ = x
+	}
+	var decls []m.Decl
+	for _, x := range inner {
+		decls = append(decls, m.Decl{Name: x, F: m.Fn{Name: x, Body: []m.N{m.Ret(m.Str("inner-" + x))}}})
+	}
+	probe := func() []m.N {
+		var out []m.N
+		for _, x := range pool {
+			out = append(out, lg(m.Typeof(m.Var(x))))
+		}
+		return out
+	}
+	body := probe()
+	// assignments: to a var initialiser of the function's own name, to a parameter, to an inner function's name
+	for _, x := range vars {
+		if r.Bool() {
+			body = append(body, m.VarS(x, m.Num(7)))
+		}
+	}
+	if r.Bool() {
+		body = append(body, m.X(m.Asg("f", m.Num(5))))
+	}
+	body = append(body, probe()...)
+	body = append(body, m.Ret(m.Typeof(m.Var("f"))))
+	fn := m.Fn{Name: "f", Params: params, Vars: vars, Decls: decls, Body: body}
+	args := nums(r, r.Intn(len(params)+1))
+	switch r.Intn(3) {
+	case 0: // a function declaration
+		p.decl("f", fn)
+		p.add(lg(m.CallV("f", args...)), lg(m.Typeof(m.Var("f"))), lg(m.Typeof(m.Var("a"))), lg(m.Typeof(m.Var("g"))))
+		if r.Bool() {
+			p.add(lg(m.CallV("f", args...)))
+		}
+	case 1: // a named function expression: the name is visible inside only
+		p.add(m.X(m.Asg("h", fn.Expr())), lg(m.CallV("h", args...)), lg(m.Typeof(m.Var("f"))), lg(m.CallV("h", args...)))
+	default: // a named function expression with the same name as an outer function
+		p.decl("f", m.Fn{Name: "f", Body: []m.N{m.Ret(m.Str("outer-f"))}})
+		p.add(m.X(m.Asg("h", fn.Expr())), lg(m.CallV("h", args...)), lg(m.CallV("f")), lg(m.Typeof(m.Var("f"))))
+	}
+	return p
+}
+
+// a label left pending by a labelled statement that THROWS inside a callee must not be adopted by the caller's
+// catch / finally block: `break L` there is the caller's own
+func scLabelStale(r *h.Rng) *prog {
+	p := &prog{}
+	p.v("i", "n")
+	var thrower m.N
+	switch r.Intn(3) {
+	case 0:
+		thrower = m.Label("L", m.Throw(m.Str("T")))
+	case 1:
+		thrower = m.Label("L", m.X(m.Get(m.Null(), "y")))
+	default:
+		thrower = m.Label("M", m.Label("L", m.X(m.Var("nowhere"))))
+	}
+	var tb []m.N
+	switch r.Intn(3) {
+	case 0:
+		tb = []m.N{thrower}
+	case 1:
+		tb = []m.N{m.X(m.EvalD(nil, nil, []m.N{thrower}))}
+	default:
+		tb = []m.N{m.X(m.EvalI(nil, nil, []m.N{thrower}))}
+	}
+	p.decl("th", m.Fn{Name: "th", Body: append(tb, m.Ret(m.Str("unreached")))})
+	ex := m.Break("L")
+	if r.Chance(30) {
+		ex = m.Continue("L")
+	}
+	var tr m.N
+	if r.Bool() { // caught: break L in the catch block
+		tr = m.Try([]m.N{m.X(m.CallV("th"))}, "e", []m.N{inc("n", 10), ex, lg(m.Str("unreached-c"))}, nil, true, false)
+	} else { // no catch: break L in the finally block (which also discards the exception)
+		tr = m.Try([]m.N{m.X(m.CallV("th"))}, "", nil, []m.N{inc("n", 100), ex, lg(m.Str("unreached-f"))}, false, true)
+	}
+	loop := m.Label("L", m.While(m.Lt(m.Var("i"), m.Num(3)), []m.N{inc("i", 1), tr, lg(m.Str("after-try"))}))
+	body := []m.N{m.X(m.Asg("i", m.Num(0))), m.X(m.Asg("n", m.Num(0))), loop, lg(m.Var("i")), lg(m.Var("n"))}
+	if r.Bool() {
+		p.decl("run", m.Fn{Name: "run", Vars: []string{"i", "n"}, Body: append(body, m.Ret(m.Var("n")))})
+		p.add(lg(m.CallV("run")))
+	} else {
+		p.add(body...)
+	}
+	// a labelled block in the caller
+	p.add(m.Label("L", m.Block(m.Try([]m.N{m.X(m.CallV("th"))}, "e", []m.N{m.Break("L")}, nil, true, false), lg(m.Str("unreached-b")))), lg(m.Str("end")))
+	return p
+}
+
+// a host function that re-enters the VM (Otto.Call) runs the named function as GLOBAL code, whatever locals shadow it
+func scHostReentry(r *h.Rng) *prog {
+	p := &prog{}
+	p.v("o")
+	p.decl("who", m.Fn{Name: "who", Body: []m.N{m.Ret(m.Add(m.Str("G:"), m.Typeof(m.Var("loc"))))}})
+	re := func() m.N { return m.EvalI(nil, nil, []m.N{m.X(m.CallV("who"))}) }
+	var fb []m.N
+	fvars := []string{"loc"}
+	fb = append(fb, m.X(m.Asg("loc", m.Num(1))))
+	var decls []m.Decl
+	switch r.Intn(3) {
+	case 0: // a local variable shadows it
+		fvars = append(fvars, "who")
+		fb = append(fb, m.X(m.Asg("who", m.Fn{Body: []m.N{m.Ret(m.Str("L"))}}.Expr())))
+	case 1: // an inner function declaration shadows it
+		decls = append(decls, m.Decl{Name: "who", F: m.Fn{Name: "who", Body: []m.N{m.Ret(m.Str("L"))}}})
+	}
+	fb = append(fb, lg(re()), lg(m.CallV("who")))
+	if r.Bool() {
+		fb = append(fb, m.With(m.Obj(m.Prop{K: "who", V: m.Fn{Body: []m.N{m.Ret(m.Str("W"))}}.Expr()}), lg(re()), lg(m.CallV("who"))))
+	}
+	fb = append(fb, lg(re()), m.Ret(m.Var("loc")))
+	p.decl("f", m.Fn{Name: "f", Vars: fvars, Decls: decls, Body: fb})
+	p.add(lg(m.CallV("f")), lg(re()), lg(m.Typeof(m.Var("loc"))))
+	return p
+}
+
 func init() {
 	fnScenarios = append(fnScenarios, []fnScenario{
 		{"with-lookup", scWithLookup}, {"with-closure", scWithClosure}, {"with-this", scWithThis}, {"with-var", scWithVar},
@@ -1256,5 +1392,6 @@ func init() {
 		{"forin-chain", scForInChain}, {"forin-special", scForInSpecial}, {"forin-return", scForInReturn}, {"forin-labels", scForInLabels},
 		{"forin-delete", scForInDelete}, {"forin-revisit", scForInRevisit}, {"forin-empty", scForInEmpty}, {"forin-with", scForInWith}, {"forin-value", scForInValue},
 		{"labels", scLabels}, {"dup-params", scDupParams}, {"order", scOrder},
-		{"label-capture", scLabelCapture}, {"eval-throw", scEvalThrow}}...)
+		{"label-capture", scLabelCapture}, {"eval-throw", scEvalThrow},
+		{"hoist-collide", scHoistCollide}, {"label-stale", scLabelStale}, {"host-reentry", scHostReentry}}...)
 }
